@@ -357,6 +357,7 @@ class _ProcessEvents(Contract):
         if "_g_delivered" in old:
             I.fset(c.self, "_g_delivered", In(old["_g_delivered"].v + n))
         I.trace.append(("global_write", "AbstractContract.now"))
+        I.trace.append(("events_delivered", self.field, clock_of(I.heap[c.self.oid])))
         if not self.sets_done:
             I.fset(c.self, "_events_latent", mk_event_seq(I, "latent_empty"))
             I.assume(I.heap[I.heap[c.self.oid]["_events_latent"].oid]["len"] == 0)
@@ -653,6 +654,12 @@ class Step(Contract):
         reb_raised = any(t == ("raise", "Broker.rebalance", "EndOfEpisodeError") for t in I.trace)
         if reb_raised:
             out.append(Cl("done_on_insolvent_decision", done1))
+        # C07: the decision is stamped with the time of the latest event processed before its execution (the clock after the latent
+        # events of this step), not with the time at which the step began
+        lat = [t for t in I.trace if t[0] == "events_delivered" and t[1] == "_events_latent"]
+        rbs = [t for t in I.trace if t[0] == "rebalance_request"]
+        if lat and rbs and lat[0][2] is not None:
+            out.append(Cl("decision_stamped_with_the_latest_event_before_execution", rbs[0][1] == lat[0][2]))
         # the invariant assumed at entry holds again at exit (so it holds at every step of an episode once reset establishes it)
         for x in env_invariant(I, c.self):
             x.name = "invariant_preserved::" + x.name
